@@ -125,7 +125,7 @@ def main(argv=None):
             r["verdict"] = "twin-ok" if v == "counterexample" else v
             continue
         if v == "confirmed":
-            base = r["id"].split("#")[0]
+            base = r["id"].split("#")[0].split("@")[0]
             for name in ob.get("antecedents", []):
                 key = (base, name)
                 antecedent_totals[key] = antecedent_totals.get(key, 0) + int((r.get("counters") or {}).get(name) or 0)
